@@ -223,6 +223,17 @@ class SymStr:
         parts = self.split(old, count)
         return str_join(new, parts)
 
+    def __getattr__(self, name):
+        """any other str method: fork over every feasible content (sound; loud when the bound is exceeded)"""
+        if name.startswith("__") or not hasattr(str, name):
+            raise AttributeError("'str' object has no attribute %r" % name)
+
+        def call(*a, **k):
+            conc = "".join(chr(concretize(c)) for c in self.items)
+            a = tuple("".join(chr(concretize(c)) for c in x.items) if isinstance(x, SymStr) else concretize(x) for x in a)
+            return getattr(conc, name)(*a, **k)
+        return call
+
     def isdigit(self):
         for c in self.items:
             if not (c >= 48) or not (c <= 57):
